@@ -9,6 +9,7 @@ mod c08;
 mod c09;
 mod c13;
 mod c15;
+mod c16;
 mod c17;
 mod json;
 mod rng;
@@ -77,6 +78,7 @@ fn main() {
                 "C09" => c09::search(seed, full, &rt),
                 "C13" => c13::search(seed, full, &rt),
                 "C15" => c15::search(seed, full, &rt),
+                "C16" => c16::search(seed, full, &rt),
                 _ => SearchResult { evaluations: 0, failures: vec![], summary: format!("no executable search registered for {pid}") },
             };
             emit_search(r);
@@ -97,6 +99,7 @@ fn main() {
                 "c09" => c09::replay(&case[1..], &rt),
                 "c13" => c13::replay(&case[1..], &rt),
                 "c15" => c15::replay(&case[1..], &rt),
+                "c16" => c16::replay(&case[1..], &rt),
                 _ => (false, "unknown case".to_string()),
             };
             println!("{}", J::obj(vec![("fails", J::Bool(fails)), ("detail", J::s(&detail))]).render());
